@@ -83,6 +83,11 @@ func HarnessBNReadOnlyG1(p0 int) {
 	bnArb(&Q.g.x)
 	bnArb(&Q.g.y)
 	bnArb(&Q.g.z)
+	T, T2 := newPointG2(), newPointG2()
+	for _, c := range []*gfP2{&T.g.x, &T.g.y, &T.g.z, &T.g.t, &T2.g.x, &T2.g.y, &T2.g.z, &T2.g.t} {
+		bnArb(&c.x)
+		bnArb(&c.y)
+	}
 	effectsBegin()
 	switch p0 {
 	case 0:
@@ -103,6 +108,15 @@ func HarnessBNReadOnlyG1(p0 int) {
 	case 6:
 		_ = P.MarshalSize()
 		_ = P.EmbedLen()
+	case 7:
+		// pairing evaluation with shared operands (what every bls/bdn/tbls Verify does with a shared public key)
+		newPointGT().Pair(P, T)
+	case 8:
+		_, _ = T.MarshalBinary()
+		_ = T.Equal(T2)
+		_ = T.Clone()
+		newPointG2().Add(T, T2)
+		newPointG2().Neg(T)
 	}
 	effectsEnd()
 	vreach("end")
@@ -116,6 +130,9 @@ func RaceBNReadOnlyG1(p0 int) {
 		P.Add(P, P) // z != 1: MakeAffine has something to do
 		Q := newPointG1()
 		Q.Base()
+		T := newPointG2()
+		T.Base()
+		T.Add(T, T)
 		for g := 0; g < 2; g++ {
 			go func() {
 				switch p0 {
@@ -134,6 +151,14 @@ func RaceBNReadOnlyG1(p0 int) {
 					newPointG1().Neg(P)
 					newPointG1().Set(P)
 					newPointG1().Sub(P, Q)
+				case 7:
+					newPointGT().Pair(P, T)
+				case 8:
+					_, _ = T.MarshalBinary()
+					_ = T.Equal(T)
+					_ = T.Clone()
+					newPointG2().Add(T, T)
+					newPointG2().Neg(T)
 				default:
 					_ = P.MarshalSize()
 				}
